@@ -30,6 +30,11 @@ def _make(args):
                 spec = gen.gen_spec(rng, gen.C06_ALL)
             if kind != 'cmap' or rng.random() < 0.5:
                 gen.vary_container(rng, spec)
+                # the Glat encoding variants are dealt out by font index rather than drawn, so that every (version, run style, density)
+                # combination is present in any 36 consecutive fonts of a set
+                spec['glat_version'] = 1 + i % 3
+                spec['glat_runs'] = ('max', 'single', 'split')[(i // 3) % 3]
+                spec['glat_dense'] = (False, 'odd', 'late', 'all')[(i // 9) % 4]
             data = gdl.build_font(spec)
         except ValueError:
             continue
@@ -37,7 +42,8 @@ def _make(args):
         # name: the engine computes character coverage before those passes (known finding KF-C05-1)
         pa = any(a[0] in ('assoc', 'put_copy') for P in spec['passes'] if P['type'] in ('pos', 'just')
                  for r in P['rules'] if r.get('raw_acts') is None for acts in r['acts'] for a in acts)
-        path = os.path.join(outdir, '%s%04d%s.ttf' % (kind[0], i, '_pa' if pa else ''))
+        # ... and fonts whose justification attributes sit at the edges of their 16-bit range are tagged too (known findings KF-C19-2/3)
+        path = os.path.join(outdir, '%s%04d%s%s.ttf' % (kind[0], i, '_pa' if pa else '', '_jx' if spec.get('just_extreme') else ''))
         with open(path, 'wb') as f:
             f.write(data)
         with open(path[:-4] + '.json', 'w') as f:
